@@ -201,6 +201,9 @@ def aggregate(prop, mod, tier, seed, results, known, wall):
         inconclusive.append("deciding monitors never evaluated: " + ",".join(missing))
     if counters.get("cases", 0) == 0:
         inconclusive.append("no case executed")
+    abandoned = counters.get("cases_abandoned_by_watchdog", 0)
+    if abandoned > 0.25 * max(counters.get("cases", 0), 1):
+        inconclusive.append(f"{abandoned} of {counters.get('cases', 0)} cases were abandoned by a child-process watchdog (loaded machine)")
     amb = counters.get("ambiguous_skipped", 0)
     judged = sum(v for k, v in counters.items() if k.startswith("mon:"))
     if amb > 0.2 * (amb + judged):
